@@ -415,6 +415,24 @@ def check_refusals(case, ctx: Ctx):
             return
         ctx.refused("a + b with different bins", lambda: a + b)
         ctx.refused("a += b with different bins", a.__iadd__, b)
+    elif kind == "adaptive_other_grid":
+        # adaptive operands whose grids differ only slightly (width or shift): there is no common grid
+        w = case["w"]
+        kw_a = {"bin_width": w, "adaptive": True}
+        kw_b = {"bin_width": w * (1 + case["dw"]), "adaptive": True}
+        if case["dshift"]:
+            kw_b["bin_shift"] = w * case["dshift"]
+        da_ = [x * w for x in case["xa"]]
+        db_ = [(x + 40) * w for x in case["xb"]]
+        a = physt.h1(np.array(da_), "fixed_width", **kw_a)
+        b = physt.h1(np.array(db_ + [db_[-1] + 3 * w]), "fixed_width", **kw_b)
+        before = snapshot(a)
+        bb = snapshot(b)
+        if a.shape == b.shape:
+            return
+        ctx.refused("adaptive a + b on different grids", lambda: a + b)
+        ctx.refused("adaptive b + a on different grids", lambda: b + a)
+        require(snap_equal(bb, snapshot(b)), "refused_but_modified", lambda: snap_diff(bb, snapshot(b)))
     elif kind == "different_ndim":
         b = hgen.build(case["b"])
         if a.ndim == b.ndim:
@@ -433,7 +451,12 @@ def check_refusals(case, ctx: Ctx):
 
 @st.composite
 def refusal_cases(draw, tier="quick"):
-    kind = draw(st.sampled_from(["different_edges", "different_edges", "different_ndim", "scalar", "list", "array", "str", "none"]))
+    kind = draw(st.sampled_from(["different_edges", "different_edges", "different_ndim", "scalar", "list", "array", "str", "none", "adaptive_other_grid", "adaptive_other_grid"]))
+    if kind == "adaptive_other_grid":
+        dw, dshift = draw(st.sampled_from([(3e-6, 0), (1e-7, 0), (0, 0.5), (0, 1e-6), (0.5, 0), (1e-9, 0), (0, 0.25)]))
+        return {"kind": kind, "a": draw(hgen.hist_spec(dims=(1,), dtypes=["int64"], max_bins=2, adaptive=False, forms=("numpy",), rich_meta=False)),
+                "w": draw(st.sampled_from([1.0, 0.1, 1e-9, 2.5, 1e-8, 1e3])), "dw": dw, "dshift": dshift,
+                "xa": draw(st.lists(st.floats(0, 5, allow_nan=False), min_size=1, max_size=5)), "xb": draw(st.lists(st.floats(0, 5, allow_nan=False), min_size=1, max_size=5))}
     a = draw(hgen.hist_spec(dims=(1, 2, 3), dtypes=["int64", "float64", "int32"], adaptive=False, forms=("edges", "static", "numpy", "fixed")))
     case = {"kind": kind, "a": a}
     if kind == "different_edges":
